@@ -50,60 +50,61 @@ def showTrace (mode : String) (s : Shape) (r : Option (Arr (List (Option Nat))))
     let ev := if elems.all Option.isSome then "same" else "crash"
     s!"ok shape={fmtNats a.shape} data={fmtData (elems.map (fun e => match e with | some v => toString v | none => "X"))} eval={ev}"
 
+/-- ops are prefixed `c16.` on the model side (`Case.mreq`): other properties' drivers also serve ops called `outer`, `dot`, … -/
 def handle : Handler := fun op a =>
   let mode := (a.get? "data").getD "mix"
   match op with
-  | "shape_matmul" => orBad do
+  | "c16.shape_matmul" => orBad do
       let sa ← a.nats "a"
       let sb ← a.nats "b"
       match shapeMatmul sa sb with
       | some s => pure s!"ok {fmtNats s}"
       | none => pure "nothing"
-  | "matmul" => orBad do
+  | "c16.matmul" => orBad do
       let sa ← a.nats "a"
       let sb ← a.nats "b"
       match a.get? "impl" with
       | some "v1" => pure (showV1 mode sa sb (matmulV1 sa sb))
       | some "v2" => pure (showSum mode sa sb (matmulV2 sa sb))
       | _ => none
-  | "matmul_helpers" => orBad do
+  | "c16.matmul_helpers" => orBad do
       let sa ← a.nats "a"
       let sb ← a.nats "b"
       pure s!"ok tile={fmtNats (matmulLhsTile sa sb)} axes={fmtNats (matmulRhsTranspose sb.length)} lhs_reshape={fmtNats (matmulLhsReshape sa sb)}"
-  | "dot" => orBad do
+  | "c16.dot" => orBad do
       pure (showSum mode (← a.nats "a") (← a.nats "b") (dot (← a.nats "a") (← a.nats "b")))
-  | "inner" => orBad do
+  | "c16.inner" => orBad do
       pure (showSum mode (← a.nats "a") (← a.nats "b") (inner (← a.nats "a") (← a.nats "b")))
-  | "outer" => orBad do
+  | "c16.outer" => orBad do
       pure (showProd mode (← a.nats "a") (← a.nats "b") (outer (← a.nats "a") (← a.nats "b")))
-  | "vecdot" => orBad do
+  | "c16.vecdot" => orBad do
       pure (showSum mode (← a.nats "a") (← a.nats "b") (vecdot (← a.nats "a") (← a.nats "b")))
-  | "kron" => orBad do
+  | "c16.kron" => orBad do
       pure (showProd mode (← a.nats "a") (← a.nats "b") (kron (← a.nats "a") (← a.nats "b")))
-  | "tensordot" => orBad do
+  | "c16.tensordot" => orBad do
       let sa ← a.nats "a"
       let sb ← a.nats "b"
       match a.get? "axes" with
       | some _ => pure (showSum mode sa sb (tensordotInt sa sb (← a.nat "axes")))
       | none => pure (showSum mode sa sb (tensordotAxes sa sb (← a.ints "la") (← a.ints "ra")))
-  | "trace" => orBad do
+  | "c16.trace" => orBad do
       let s ← a.nats "a"
       pure (showTrace mode s (trace s (← a.int "offset") (← a.int "axis1") (← a.int "axis2")))
-  | "dot_helpers" => orBad do
+  | "c16.dot_helpers" => orBad do
       let sa ← a.nats "a"
       let sb ← a.nats "b"
       match dotLhsReshape sa sb with
       | some r => pure s!"ok tile={fmtNats (dotLhsTile sa sb)} axes={fmtNats (dotRhsTranspose sb)} lhs_reshape={fmtNats r}"
       | none => pure "crash:out_of_range"
-  | "inner_helpers" => orBad do
+  | "c16.inner_helpers" => orBad do
       match innerLhsReshape (← a.nats "a") (← a.nats "b") with
       | some r => pure s!"ok lhs_reshape={fmtNats r}"
       | none => pure "crash:out_of_range"
-  | "kron_helpers" => orBad do
+  | "c16.kron_helpers" => orBad do
       let sa ← a.nats "a"
       let sb ← a.nats "b"
       pure s!"ok axes={fmtNats (kronDstTranspose (sa.length + sb.length + 1) sa.length sb.length)} lhs_reshape={fmtNats (sa ++ List.replicate sb.length 1)} dst={fmtNats (kronDstReshape sa sb)}"
-  | "tensordot_helpers" => orBad do
+  | "c16.tensordot_helpers" => orBad do
       let sa ← a.nats "a"
       let sb ← a.nats "b"
       match a.get? "axes" with
